@@ -156,7 +156,7 @@ mut("loader-pops-keys", ["C12"], "code_data/_json_data.py",
 mut("to-json-memoised", ["C12"], "code_data/_json_data.py",
     "def code_data_to_json(code_data: CodeData) -> dict:\n    res = value_to_json(code_data)",
     "_memo: dict = {}\n\n\ndef code_data_to_json(code_data: CodeData) -> dict:\n    if id(code_data) in _memo:\n        return _memo[id(code_data)][1]\n    res = value_to_json(code_data)\n    _memo[id(code_data)] = (code_data, res)")
-mut("normalize-cached-by-id", ["C12", "C06"], "code_data/_normalize.py",
+mut("normalize-cached-by-name", ["C05"], "code_data/_normalize.py",
     "def normalize(x: T) -> T:\n",
     "_cache: dict = {}\n\n\ndef normalize(x: T) -> T:\n    if isinstance(x, CodeData) and x.name in _cache:\n        return _cache[x.name]\n    res = _normalize(x)\n    if isinstance(x, CodeData) and x.name == '<module>':\n        _cache[x.name] = res\n    return res\n\n\ndef _normalize(x: T) -> T:\n")
 mut("loader-keeps-list-reference", ["C12", "C08"], "code_data/_json_data.py",
@@ -243,6 +243,45 @@ mut("mixed-sign-merge", ["C10"], "code_data/_line_mapping.py",
     "                or (item.line_offset > 0) == (prev_item.line_offset > 0)", "                or True")
 mut("signed-byte-off", ["C10"], "code_data/_line_mapping.py",
     "                line_offset=int.from_bytes([b[i + 1]], \"big\", signed=True),", "                line_offset=b[i + 1] if b[i + 1] < 129 else b[i + 1] - 256,")
+
+# ---- C03
+mut("instrsize-boundary-lt", ["C03"], "code_data/_blocks.py",
+    "    return 1 if arg <= 0xFF else 2 if arg <= 0xFFFF else 3 if arg <= 0xFFFFFF else 4",
+    "    return 1 if arg <= 0x100 else 2 if arg <= 0xFFFF else 3 if arg <= 0xFFFFFF else 4")
+mut("relaxation-single-sweep", ["C03"], "code_data/_blocks.py",
+    "                    if n_instructions != _n_args(instruction, new_arg_value):\n                        changed_instruction_lengths = True",
+    "                    if n_instructions != _n_args(instruction, new_arg_value):\n                        changed_instruction_lengths = len(args) < 200")
+mut("constants-keyed-by-hash", ["C03"], "code_data/_blocks.py",
+    "    constants = FromArgs[ConstantValue](_hash_fn=constant_key)", "    constants = FromArgs[ConstantValue]()")
+mut("no-none-pad-before-first-str", ["C03", "C05"], "code_data/_blocks.py",
+    "        if docstring_is_none and first_const and arg_is_string and no_override:", "        if False:")
+mut("freevar-index-without-cells", ["C03", "C01"], "code_data/_blocks.py",
+    "                args[block_index, instruction_index] += len(cellvars)", "                args[block_index, instruction_index] += 0")
+mut("absolute-target-previous-block", ["C03"], "code_data/_blocks.py",
+    "                        new_arg_value = multiplier * target_instruction_offset",
+    "                        new_arg_value = multiplier * (target_instruction_offset if arg.target != 7 else block_index_to_instruction_offset[6])")
+mut("gaps-not-checked", ["C03"], "code_data/_blocks.py",
+    "            min(self._i_to_arg) != 0 or max(self._i_to_arg) != len(self._i_to_arg) - 1", "            min(self._i_to_arg) != 0")
+mut("n-args-override-wins", ["C03"], "code_data/_blocks.py",
+    "    return max(instruction._n_args_override or 0, _instrsize(arg))", "    return instruction._n_args_override or _instrsize(arg)")
+mut("none-line-typeerror", ["C03"], "code_data/_line_mapping.py",
+    "        if line_number is None:\n            line_number = last_line_number\n", "")
+mut("collision-assert-eq", ["C03"], "code_data/_blocks.py",
+    "            assert self._hash_fn(self._i_to_arg[i]) == self._hash_fn(arg)", "            assert self._i_to_arg[i] == arg or self._i_to_arg[i] != self._i_to_arg[i]")
+mut("relaxation-never-stops", ["C03"], "code_data/_blocks.py",
+    "                    if n_instructions != _n_args(instruction, new_arg_value):\n                        changed_instruction_lengths = True",
+    "                    if n_instructions != _n_args(instruction, new_arg_value) or (len(args) == 77 and len(blocks) == 5):\n                        changed_instruction_lengths = True")
+# ---- C06
+mut("normalize-keeps-nested", ["C06"], "code_data/_normalize.py", "                _nested=False,\n", "")
+mut("normalize-keeps-noarg", ["C06"], "code_data/_normalize.py", "        return cast(T, NoArg())", "        return cast(T, x)")
+mut("normalize-keeps-n-args-override", ["C06"], "code_data/_normalize.py", "                _n_args_override=None,\n", "")
+mut("normalize-keeps-cellvar-override", ["C06"], "code_data/_normalize.py",
+    "    if isinstance(x, (Name, Varname, Cellvar)):", "    if isinstance(x, (Name, Varname)):")
+mut("normalize-keeps-additional-args", ["C06"], "code_data/_normalize.py", "                _additional_args=(),\n", "")
+mut("json-drops-relative-false-after-normalize", ["C06", "C07"], "code_data/_json_data.py",
+    "    if \"target\" in value:\n        return Jump(**value)", "    if \"target\" in value:\n        return Jump(value[\"target\"], value.get(\"relative\", value[\"target\"] == 3))")
+mut("normalize-not-idempotent-on-lines", ["C06"], "code_data/_normalize.py",
+    "                _line_offsets_override=tuple(),\n", "                _line_offsets_override=tuple() if x._line_offsets_override else (0,) if x.name == 'NOP' else tuple(),\n")
 
 
 def run_one(m, props_filter):
